@@ -32,8 +32,9 @@ package httpgen
 //@   ensures other: kind == protoreflect.EnumKind || kind == protoreflect.BytesKind || kind == protoreflect.MessageKind || kind == protoreflect.GroupKind ==> err != nil
 
 // The request pipeline of one route: headers -> path -> query -> body (body verbs only) -> validate -> handler.
-//@ emitted func BindingMiddleware_closure1(next any, serviceHeaders any, methodHeaders any, pathParams any, queryParams any, httpMethod string, errorHandler any)
+//@ emitted func BindingMiddleware_closure1(next any, serviceHeaders []*sebufhttp.Header, methodHeaders []*sebufhttp.Header, pathParams any, queryParams any, httpMethod string, errorHandler any)
 //@   closure 1
+//@   requires spec.distinctNames(serviceHeaders) && spec.distinctNames(methodHeaders)
 //@   ensures one_outcome: (count("ServeHTTP") - old(count("ServeHTTP"))) + (count("writeErrorWithHandler") - old(count("writeErrorWithHandler"))) == 1
 //@   ensures headers_checked: count("validateHeaders") == old(count("validateHeaders")) + 1
 //@   at-call bindPathParams requires headers_first: count("validateHeaders") > old(count("validateHeaders")) && lastNil("validateHeaders")
@@ -123,6 +124,21 @@ package httpgen
 //@   at-call bindDataFromBinaryRequest requires binary_types_only: filterFlags(r.Header.Get("Content-Type")) == "application/octet-stream" || filterFlags(r.Header.Get("Content-Type")) == "application/x-protobuf"
 //@   at-call bindDataFromJSONRequest requires json_otherwise: filterFlags(r.Header.Get("Content-Type")) != "application/octet-stream" && filterFlags(r.Header.Get("Content-Type")) != "application/x-protobuf"
 //@ emitted func validateHeaders(r *nethttp.Request, serviceHeaders []*sebufhttp.Header, methodHeaders []*sebufhttp.Header) (verr *sebufhttp.ValidationError)
+//@   requires spec.distinctNames(serviceHeaders) && spec.distinctNames(methodHeaders)
+//@   ensures violations_listed: verr != nil ==> len(verr.Violations) > 0
+//@   ensures method_headers_enforced: verr == nil ==> (forall k int :: 0 <= k && k < len(methodHeaders) && methodHeaders[k].GetRequired() ==> spec.okHdr(r, methodHeaders[k]))
+//@   ensures service_headers_enforced: verr == nil ==> (forall k int :: 0 <= k && k < len(serviceHeaders) && serviceHeaders[k].GetRequired() && !(exists j int :: 0 <= j && j < len(methodHeaders) && methodHeaders[j].GetRequired() && lower(methodHeaders[j].GetName()) == lower(serviceHeaders[k].GetName())) ==> spec.okHdr(r, serviceHeaders[k]))
+//@   ensures rejects_only_for_declared: verr != nil ==> (exists k int :: 0 <= k && k < len(methodHeaders) && methodHeaders[k].GetRequired() && !spec.okHdr(r, methodHeaders[k])) || (exists k int :: 0 <= k && k < len(serviceHeaders) && serviceHeaders[k].GetRequired() && !(exists j int :: 0 <= j && j < len(methodHeaders) && methodHeaders[j].GetRequired() && lower(methodHeaders[j].GetName()) == lower(serviceHeaders[k].GetName())) && !spec.okHdr(r, serviceHeaders[k]))
+//@   loop 1 invariant forall s string :: inDom(allHeaders, s) ==> (exists k int :: 0 <= k && k < _i && serviceHeaders[k].GetRequired() && serviceHeaders[k] == allHeaders[s])
+//@   loop 1 invariant forall k int :: 0 <= k && k < _i && serviceHeaders[k].GetRequired() ==> inDom(allHeaders, lower(serviceHeaders[k].GetName())) && allHeaders[lower(serviceHeaders[k].GetName())] == serviceHeaders[k]
+//@   loop 1 invariant forall s string :: inDom(allHeaders, s) ==> lower(allHeaders[s].GetName()) == s
+//@   loop 2 invariant forall s string :: inDom(allHeaders, s) ==> lower(allHeaders[s].GetName()) == s
+//@   loop 2 invariant forall s string :: inDom(allHeaders, s) ==> (exists k int :: 0 <= k && k < len(serviceHeaders) && serviceHeaders[k].GetRequired() && serviceHeaders[k] == allHeaders[s] && !(exists j int :: 0 <= j && j < _i && methodHeaders[j].GetRequired() && lower(methodHeaders[j].GetName()) == s)) || (exists k int :: 0 <= k && k < _i && methodHeaders[k].GetRequired() && methodHeaders[k] == allHeaders[s])
+//@   loop 2 invariant forall k int :: 0 <= k && k < _i && methodHeaders[k].GetRequired() ==> inDom(allHeaders, lower(methodHeaders[k].GetName())) && allHeaders[lower(methodHeaders[k].GetName())] == methodHeaders[k]
+//@   loop 2 invariant forall k int :: 0 <= k && k < len(serviceHeaders) && serviceHeaders[k].GetRequired() ==> inDom(allHeaders, lower(serviceHeaders[k].GetName()))
+//@   loop 2 invariant forall k int :: 0 <= k && k < len(serviceHeaders) && serviceHeaders[k].GetRequired() && !(exists j int :: 0 <= j && j < _i && methodHeaders[j].GetRequired() && lower(methodHeaders[j].GetName()) == lower(serviceHeaders[k].GetName())) ==> allHeaders[lower(serviceHeaders[k].GetName())] == serviceHeaders[k]
+//@   loop 3 invariant len(violations) == 0 ==> (forall s string :: done[s] ==> spec.okHdr(r, allHeaders[s]))
+//@   loop 3 invariant len(violations) > 0 ==> (exists s string :: done[s] && inDom(allHeaders, s) && !spec.okHdr(r, allHeaders[s]))
 
 // Route registration of the extraction schema (schema-dependent text: an instance check, labelled bounded).
 // Each route must get its own method headers, parameter tables, verb and pattern.
@@ -155,3 +171,59 @@ package httpgen
 //@   ensures read_once: count("ReadAll") == old(count("ReadAll")) + 1
 //@   ensures decoded: err == nil ==> len(lastRetAs("ReadAll", []byte)) == 0 || (count("proto.Unmarshal") == old(count("proto.Unmarshal")) + 1 && lastErrNil("proto.Unmarshal"))
 //@   at-call proto.Unmarshal requires whole_body: arg0 == lastRetAs("ReadAll", []byte)
+
+// ---- header validation (C09) ----
+
+//@ emitted func validateIntegerHeader(value string) (err error)
+//@   pure
+//@   ensures (err == nil) <==> (result1(strconv.ParseInt(value, 10, 64)) == nil)
+
+//@ emitted func validateNumberHeader(value string) (err error)
+//@   pure
+//@   ensures (err == nil) <==> (result1(strconv.ParseFloat(value, 64)) == nil)
+
+//@ emitted func validateBooleanHeader(value string) (err error)
+//@   pure
+//@   ensures (err == nil) <==> (result1(strconv.ParseBool(value)) == nil)
+
+//@ emitted func validateArrayHeader(value string) (err error)
+//@   pure
+//@   ensures (err == nil) <==> (strings.TrimSpace(value) != "")
+
+//@ emitted func validateUUIDFormat(value string) (err error)
+//@   pure
+//@   ensures (err == nil) <==> (len(value) == 36 && charAt(value, 8) == 45 && charAt(value, 13) == 45 && charAt(value, 18) == 45 && charAt(value, 23) == 45)
+
+//@ emitted func validateEmailFormat(value string) (err error)
+//@   pure
+//@   ensures err == nil ==> contains(value, "@")
+
+//@ emitted func validateDateTimeFormat(value string) (err error)
+//@   pure
+//@   ensures (err == nil) <==> (result1(time.Parse("2006-01-02T15:04:05Z07:00", value)) == nil)
+
+//@ emitted func validateDateFormat(value string) (err error)
+//@   pure
+//@   ensures (err == nil) <==> (result1(time.Parse("2006-01-02", value)) == nil)
+
+//@ emitted func validateTimeFormat(value string) (err error)
+//@   pure
+//@   ensures (err == nil) <==> (result1(time.Parse("15:04:05", value)) == nil)
+
+//@ emitted func validateStringHeader(value string, format string) (err error)
+//@   pure
+//@   ensures utf8: !utf8.ValidString(value) ==> err != nil
+//@   ensures uuid: utf8.ValidString(value) && format == "uuid" ==> ((err == nil) <==> (validateUUIDFormat(value) == nil))
+//@   ensures email: utf8.ValidString(value) && format == "email" ==> ((err == nil) <==> (validateEmailFormat(value) == nil))
+//@   ensures datetime: utf8.ValidString(value) && format == "date-time" ==> ((err == nil) <==> (validateDateTimeFormat(value) == nil))
+//@   ensures date: utf8.ValidString(value) && format == "date" ==> ((err == nil) <==> (validateDateFormat(value) == nil))
+//@   ensures time: utf8.ValidString(value) && format == "time" ==> ((err == nil) <==> (validateTimeFormat(value) == nil))
+//@   ensures plain: utf8.ValidString(value) && format != "uuid" && format != "email" && format != "date-time" && format != "date" && format != "time" ==> err == nil
+
+//@ emitted func validateHeaderValue(headerSpec *sebufhttp.Header, value string) (err error)
+//@   pure
+//@   ensures integer: headerSpec.GetType() == "integer" ==> ((err == nil) <==> (validateIntegerHeader(value) == nil))
+//@   ensures number: headerSpec.GetType() == "number" ==> ((err == nil) <==> (validateNumberHeader(value) == nil))
+//@   ensures boolean: headerSpec.GetType() == "boolean" ==> ((err == nil) <==> (validateBooleanHeader(value) == nil))
+//@   ensures array: headerSpec.GetType() == "array" ==> ((err == nil) <==> (validateArrayHeader(value) == nil))
+//@   ensures string: headerSpec.GetType() != "integer" && headerSpec.GetType() != "number" && headerSpec.GetType() != "boolean" && headerSpec.GetType() != "array" ==> ((err == nil) <==> (validateStringHeader(value, headerSpec.GetFormat()) == nil))
